@@ -31,6 +31,8 @@ struct Src {
   bool nonblocking = false;
   int later_event = 0;     // 0 none, 1 write stdout, 2 write stderr, 3 exit (only with a waiting poll)
   int64_t later_after = 0;
+  int deadline_kind = 0;   // 0 none, 1 far beyond everything this case does, 2 may pass during a waiting poll, 3 passed before the first poll
+  int deadline = 0;
 };
 
 struct Case {
@@ -76,6 +78,17 @@ Case decode(Tape &t)
     }
   }
   c.second_round = t.coin();
+  // (decoded last: cases recorded before sources had deadlines keep their meaning)
+  for (auto &s : c.src) {
+    if (s.null) continue;
+    s.deadline_kind = (int) t.weighted({ 6, 2, 2, 1 });
+    switch (s.deadline_kind) {
+      case 1: s.deadline = 1000000000; break;
+      case 2: s.deadline = (int) t.range(1, 60000); break;
+      case 3: s.deadline = (int) t.range(1, 50); break;
+      default: break;
+    }
+  }
   return c;
 }
 
@@ -110,6 +123,7 @@ CaseResult run_case(Tape &t, long)
   size_t n = c.src.size();
   std::vector<vt::VChild> kids(n);
   std::vector<Model> mod(n);
+  std::vector<int64_t> deadline_abs(n, vt::INF);
   std::map<int, hz::FdId> fds_before = hz::snapshot_self_fds();
   std::string err;
 
@@ -117,7 +131,7 @@ CaseResult run_case(Tape &t, long)
     std::vector<std::string> js;
     for (auto &s : c.src)
       js.push_back(s.null ? std::string("null")
-                          : J().kv("interests", s.interests).kv("stdout", out_name(s.out[0])).kv("stderr", out_name(s.out[1])).kv("pending_out", (unsigned long long) s.pending[0]).kv("pending_err", (unsigned long long) s.pending[1]).kv("stdin", in_name(s.in)).kv("child", s.child == CH_RUNNING ? "running" : s.child == CH_EXITED ? "exited" : "reaped").kv("nonblocking", s.nonblocking).kv("later_event", s.later_event).kv("later_after", (long long) s.later_after).str());
+                          : J().kv("interests", s.interests).kv("stdout", out_name(s.out[0])).kv("stderr", out_name(s.out[1])).kv("pending_out", (unsigned long long) s.pending[0]).kv("pending_err", (unsigned long long) s.pending[1]).kv("stdin", in_name(s.in)).kv("child", s.child == CH_RUNNING ? "running" : s.child == CH_EXITED ? "exited" : "reaped").kv("nonblocking", s.nonblocking).kv("later_event", s.later_event).kv("later_after", (long long) s.later_after).kv("deadline", s.deadline).str());
     res.describe = J().raw("sources", jarr(js)).kv("timeout", c.timeout).kv("second_round", c.second_round).str();
   }
 
@@ -131,10 +145,12 @@ CaseResult run_case(Tape &t, long)
     opt.redirect.out.type = s.out[0] == O_NOT_PIPE ? REPROC_REDIRECT_DISCARD : REPROC_REDIRECT_PIPE;
     opt.redirect.err.type = s.out[1] == O_NOT_PIPE ? REPROC_REDIRECT_DISCARD : REPROC_REDIRECT_PIPE;
     opt.nonblocking = s.nonblocking;
+    opt.deadline = s.deadline;
     opt.stop = { { REPROC_STOP_KILL, 5000 }, { REPROC_STOP_NOOP, 0 }, { REPROC_STOP_NOOP, 0 } };
     err = vt::start_puppet(w, fw::case_dir() + "/ctl" + std::to_string(i), opt, kids[i]);
     if (err.empty() && kids[i].start_result <= 0) err = "start returned " + std::to_string(kids[i].start_result);
     if (!err.empty()) break;
+    if (s.deadline) deadline_abs[i] = kids[i].t_start + s.deadline;
     Model &m = mod[i];
     m.pipe_open[0] = s.in != I_NOT_PIPE;
     m.pipe_open[1] = s.out[0] != O_NOT_PIPE;
@@ -224,6 +240,13 @@ CaseResult run_case(Tape &t, long)
     return res;
   }
 
+  {
+    // deadlines of kind 3 have passed by the time of the first poll
+    bool any3 = false;
+    for (auto &s : c.src) any3 = any3 || (!s.null && s.deadline_kind == 3);
+    if (any3) w.advance_to(w.now + 60);
+  }
+  bool cls_deadline_passed = false, cls_deadline_far = false, cls_deadline_during = false;
   bool cls_multi = false, cls_closed = false, cls_reaped = false, cls_empty = false, cls_waiting = false, cls_probe = false;
   {
     size_t np = 0;
@@ -271,7 +294,16 @@ CaseResult run_case(Tape &t, long)
       }
       if (must[i]) something_true_now = true;
     }
-    if (!any_pollable) cls_empty = true;
+    // A deadline that has passed is reported instead of everything else (C08 says how); the clauses about what must be
+    // reported and about the closed-pipe error then have nothing to say. What is reported must still be true.
+    bool any_expired = false;
+    for (size_t i = 0; i < n; i++) {
+      if (c.src[i].null) continue;
+      if (deadline_abs[i] <= w.now) any_expired = true;
+      else if (c.src[i].deadline_kind == 1) cls_deadline_far = true;
+    }
+    if (any_expired) cls_deadline_passed = true;
+    if (!any_pollable && !any_expired) cls_empty = true;
     if (timeout != 0 && !something_true_now) cls_waiting = true;
 
     std::vector<reproc_event_source> srcs(n);
@@ -285,10 +317,11 @@ CaseResult run_case(Tape &t, long)
     for (auto &s : srcs) evs += " " + std::to_string(s.events);
     auto fail = [&](const std::string &sig, const std::string &mm) { res.fail(sig, "poll round " + std::to_string(round) + " (timeout " + std::to_string(timeout) + "): " + mm + " [returned " + std::to_string(r) + ", events:" + evs + "]"); };
 
-    if (!any_pollable) {
+    if (!any_pollable && !any_expired) {
       if (r != REPROC_EPIPE) fail("epipe-expected", "no requested stream of any source can still be polled: expected REPROC_EPIPE");
       continue;
     }
+    if (r == REPROC_EPIPE && !any_pollable) continue;  // (with a passed deadline: either answer)
     if (r == REPROC_EPIPE) {
       fail("epipe-unexpected", "at least one requested stream can still be polled, yet REPROC_EPIPE was returned");
       continue;
@@ -315,9 +348,11 @@ CaseResult run_case(Tape &t, long)
         continue;
       }
       if (ev & ~(c.src[i].interests | REPROC_EVENT_DEADLINE)) fail("event-not-requested", "source " + std::to_string(i) + " reports " + std::to_string(ev) + " outside its interests " + std::to_string(c.src[i].interests));
-      if (ev & REPROC_EVENT_DEADLINE) fail("deadline-without-deadline", "source " + std::to_string(i) + " reports a deadline event but has no deadline");
+      if ((ev & REPROC_EVENT_DEADLINE) && deadline_abs[i] == vt::INF) fail("deadline-without-deadline", "source " + std::to_string(i) + " reports a deadline event but has no deadline");
+      else if ((ev & REPROC_EVENT_DEADLINE) && w.now < deadline_abs[i]) fail("deadline-not-passed", "source " + std::to_string(i) + " reports its deadline " + std::to_string(deadline_abs[i] - w.now) + " ms before it passes");
+      else if ((ev & REPROC_EVENT_DEADLINE) && !any_expired) cls_deadline_during = true;
       if (ev != 0) count++;
-      if ((must[i] & ev) != must[i]) {
+      if (!any_expired && !(ev & REPROC_EVENT_DEADLINE) && (must[i] & ev) != must[i]) {
         int missing = must[i] & ~ev;
         std::string what = missing & REPROC_EVENT_OUT ? "stdout (data pending / closed / child gone)" : missing & REPROC_EVENT_ERR ? "stderr (data pending / closed / child gone)" : missing & REPROC_EVENT_IN ? "stdin (room / reader gone)" : "exit (child dead)";
         fail("event-missed", "source " + std::to_string(i) + ": " + what + " was true and requested but not reported");
@@ -382,7 +417,7 @@ CaseResult run_case(Tape &t, long)
 
   res.nontrivial = cls_multi || cls_closed || cls_reaped || cls_empty;
   uint64_t h = (uint64_t) n;
-  for (auto &s : c.src) h = mix(h, s.null ? 999 : ((uint64_t) s.interests | (uint64_t) s.out[0] << 5 | (uint64_t) s.out[1] << 8 | (uint64_t) s.in << 11 | (uint64_t) s.child << 14 | (uint64_t) s.nonblocking << 16 | (uint64_t) s.pending[0] << 17 | (uint64_t) s.later_event << 40));
+  for (auto &s : c.src) h = mix(h, s.null ? 999 : ((uint64_t) s.interests | (uint64_t) s.out[0] << 5 | (uint64_t) s.out[1] << 8 | (uint64_t) s.in << 11 | (uint64_t) s.child << 14 | (uint64_t) s.nonblocking << 16 | (uint64_t) s.pending[0] << 17 | (uint64_t) s.later_event << 40 | (uint64_t) s.deadline_kind << 44));
   h = mix(h, (uint64_t) (uint32_t) c.timeout * 2 + c.second_round);
   res.hash = h;
   if (cls_multi) res.cls("two-or-more-sources");
@@ -391,6 +426,9 @@ CaseResult run_case(Tape &t, long)
   if (cls_empty) res.cls("empty-pollable-set");
   if (cls_waiting) res.cls("waiting-poll");
   if (cls_probe) res.cls("probe-performed");
+  if (cls_deadline_passed) res.cls("deadline-passed-before-poll");
+  if (cls_deadline_during) res.cls("deadline-passed-during-poll");
+  if (cls_deadline_far) res.cls("deadline-far-away");
   for (auto &s : c.src)
     if (s.null) {
       res.cls("null-source");
